@@ -80,8 +80,8 @@ func runGrid(run *rep.Run, eng, bal string, id int) {
 	defer bA.Close()
 	defer bB.Close()
 	w, err := world.Start(world.Spec{Engine: eng, Balancer: bal, ReadTimeout: 30 * time.Second, RespTimeout: 30 * time.Second, ConnTimeout: 30 * time.Second, Endpoints: []world.Endpoint{
-		{Name: "nat", URL: bA.URL(), Type: "ollama", Priority: 100, CheckInterval: 2 * time.Second, CheckTimeout: 500 * time.Millisecond},
-		{Name: "tra", URL: bB.URL(), Type: "sglang", Priority: 100, CheckInterval: 2 * time.Second, CheckTimeout: 500 * time.Millisecond},
+		{Name: "nat", URL: bA.URL(), Type: "ollama", Priority: 100, CheckInterval: 2 * time.Second, CheckTimeout: 1500 * time.Millisecond},
+		{Name: "tra", URL: bB.URL(), Type: "sglang", Priority: 100, CheckInterval: 2 * time.Second, CheckTimeout: 1500 * time.Millisecond},
 	}})
 	if err != nil {
 		run.Inconclusive("world failed to start: " + err.Error())
